@@ -46,7 +46,12 @@ def log(*a):
 EXTRACTION_LOG = []
 
 
-def prepare_scratch(repo, scratch):
+def prepare_scratch(repo, scratch, harness_files=None):
+    """harness_files: the harness sources this run needs (None = all).  Only the harness groups they need (transitively) are
+    injected and only the extractions those groups include are made."""
+    kani_dir = os.path.join(VERIF, "kani")
+    groups = props.needed_groups(harness_files, kani_dir) if harness_files is not None else None
+    outs = props.needed_extraction_outs(groups, kani_dir) if groups is not None else None
     if os.path.exists(scratch):
         shutil.rmtree(scratch)
     os.makedirs(scratch)
@@ -58,6 +63,8 @@ def prepare_scratch(repo, scratch):
     # mechanical extractions (closure bodies that cannot be called as functions), verbatim, from the ORIGINAL text
     EXTRACTION_LOG.clear()
     for ex in props.EXTRACTS:
+        if outs is not None and ex["out"] not in outs:
+            continue
         if ex.get("kind") == "fns":
             EXTRACTION_LOG.append({"out": ex["out"], "from": ex["file"], "what": "fn items %s of %s, verbatim" % (ex["fns"], ", ".join(ex["scopes"])),
                                    "compiled_against": ex.get("substitute", "")})
@@ -96,7 +103,7 @@ def prepare_scratch(repo, scratch):
             f.write("// extracted mechanically and verbatim from %s lines %d-%d (starting at `%s`)\n"
                     % (ex["file"], a, b, ex["marker"].strip()))
             f.write(ex["header"] + "\n" + "\n".join(body) + "\n" + ex.get("footer", "") + "}\n")
-    injs = props.injections()
+    injs = props.injections(groups)
     added = inject.apply_injections(src, injs, hdir)
     files = sorted({i["file"] for i in injs})
     added2 = inject.assert_add_only(repo, src, files)
@@ -352,7 +359,7 @@ def cmd_replay(path, repo):
         return 1
     scratch = "/var/tmp/weechess-verif.replay.%d" % os.getpid()
     try:
-        src, hdir, _, _ = prepare_scratch(repo, scratch)
+        src, hdir, _, _ = prepare_scratch(repo, scratch, [doc["harness_file"]])
         hfile = os.path.join(hdir, doc["harness_file"])
         with open(hfile, "a") as f:
             f.write("\n#[cfg(test)]\nmod verif_playback_replay {\n    use super::*;\n%s\n}\n" %
@@ -447,7 +454,7 @@ def cmd_check(pid, tier, repo, only, keep, jobs):
     known_hits = []
     try:
         try:
-            src, hdir, added, sha = prepare_scratch(repo, scratch)
+            src, hdir, added, sha = prepare_scratch(repo, scratch, sorted({o["file"] for o in P["obligations"] if o.get("backend", "kani") in ("kani", "native")}))
         except inject.LostAnchor as ex:
             log("UNDECIDED property=%s lost anchor: %s" % (pid, ex))
             return 2
